@@ -4,7 +4,9 @@
 //! Files written by `run`: ops.txt (one op per line), impl.out (one canonical line per op), oracle.out
 //! (`<line>\t<message>` per failed oracle predicate), meta.json (counts, build mode).
 
+mod c07;
 mod c12;
+mod codecref;
 mod ops;
 mod ops2;
 mod util;
@@ -80,6 +82,7 @@ pub enum Verdict {
 fn oracle(prop: &str, op: &[&str], out: &str) -> Verdict {
     match prop {
         "C12" => c12::oracle(op, out),
+        "C07" => c07::oracle(op, out),
         _ => Verdict::NotApplicable,
     }
 }
@@ -87,6 +90,7 @@ fn oracle(prop: &str, op: &[&str], out: &str) -> Verdict {
 fn generate(prop: &str, tier: &str, rng: &mut util::Prng) -> Vec<Case> {
     match prop {
         "C12" => c12::generate(tier, rng),
+        "C07" => c07::generate(tier, rng),
         _ => {
             eprintln!("unknown property {prop}");
             std::process::exit(2);
